@@ -29,8 +29,14 @@ add('C05', _P, 'Lean 4 theorems on REGENERATED assembly programs (translator asm
 add('C06', 'exploration', 'guard pages, canaries, ASan/UBSan over an exhaustive length window (Lean theorem on the memory-level model: see level text)',
     'Runtime property: exhaustive length window 0..40 plus block boundaries for every public function under guard pages, canaries and sanitizers, compared with the model\'s exact footprint.  '
     'Lean part: TJ.Props.C06 (when present) proves the footprint of the memory-level model.', 'Machine-code behaviour is observed, not proved.', '5 C06')
-add('C07', 'exploration', 'valgrind secret-taint over public shapes (Lean non-interference theorem on regenerated MiniC: see level text)',
-    'valgrind memcheck with secrets marked undefined on the optimised objects, one run per public shape.  Lean part: TJ.Props.C07 (when present).', 'Compiled code observed, not proved.', '5 C07')
+add('C07', _P, 'Lean 4 non-interference theorem for the leakage semantics of the REGENERATED C source (translator c2lean.py) + per-shape execution of the secrecy monitor + valgrind on the optimised objects',
+    'TJ.MiniC.NI.exec_rel / TJ.Props.C07: for the program regenerated from every function of src/*.c and src/backend/*.c, two calls whose inputs agree on everything public have the same leakage trace '
+    '(every branch outcome, every address and size, every memcpy/memset triple, every indirect call target), the same outcome and publicly-equal results - for all arguments, memories, lengths and fuel. '
+    'Corollary used by the check: whether the secrecy monitor stops with `taint` on a public shape is independent of the secret bytes, so executing each public shape once on the regenerated program '
+    '(all data bytes labelled secret) decides it for all keys, messages, tags, passwords and entropy of that shape.  The check executes a family of shapes (API x length residues x key sizes x counts, incremental histories), '
+    'requires agreement of the MiniC run with the compiled code on the same lines, and additionally runs valgrind with secrets undefined on the -O3 objects (gcc, clang).',
+    'Universal over secrets (theorem); over public shapes the monitor verdict is established only for the shapes executed. Trusted: MiniC semantics and translator (validated by three-way execution C = MiniC = Impl, not proved against the C standard); '
+    'compiled code is observed with valgrind, not proved.', '5 C07')
 add('C08', _P, 'Lean 4 theorems (SIV round-trip, accept <-> tag, short input) + correspondence with tamper stream',
     'TJ.Props.C08: SIV decrypt(encrypt(m)) = (0,|m|,m), length |m|+8, accept iff the received tag equals the tag of the recovered plaintext, short input rejected without writes; for every permutation.' + _TIE, '', '5 C08')
 add('C09', _P, 'Lean 4 refinement proof Impl.siv = documented two-pass construction + correspondence + KAT execution',
